@@ -107,6 +107,29 @@ Theorem holo_img_pixelwise : forall (F : vec3 R -> cvec3 R) alpha p nrm (xs ys z
 Proof. intros. split; [apply Lemmas.holo_img_pixelwise|apply Lemmas.inten_img_pixelwise]. Qed.
 Print Assumptions holo_img_pixelwise.
 
+(* point detectors / pixel subsets: result i is the formula on the field at point i (same order, same length) *)
+Theorem point_detector_pointwise : forall (alpha : R) (p : vec3 R) (nrm : R) (fl : list (cvec3 R)) (i : nat),
+  nth_error (holo_flat RO alpha p nrm fl) i
+  = option_map (fun E => holo_px RO alpha E (to_vector RO p nrm)) (nth_error fl i) /\
+  nth_error (inten_flat RO fl) i = option_map (inten_px RO) (nth_error fl i).
+Proof. exact (Lemmas.holo_flat_nth RO). Qed.
+Print Assumptions point_detector_pointwise.
+
+(* a collection computed by superposition: the field on the flattened detector is, point by point, the sum
+   of the components' phased fields, each taken relative to its own centre; any number of components *)
+Theorem superposition_pointwise : forall k (cm0 : ptcomp R) (cms : list (ptcomp R)) (pts : list (vec3 R)),
+  field_flat_sup RO k (map lift_comp (cm0 :: cms)) pts = map (sum_field k cm0 cms) pts.
+Proof. exact (Lemmas.field_flat_sup_pointwise RO). Qed.
+Print Assumptions superposition_pointwise.
+
+Theorem calc_holo_img_superposed_pointwise : forall k (cm0 : ptcomp R) cms alpha p nrm (xs ys zs : list R),
+  calc_holo_img_sup RO k (map lift_comp (cm0 :: cms)) alpha p nrm xs ys zs
+  = image_of (fun q => holo_px RO alpha (sum_field k cm0 cms q) (to_vector RO p nrm)) xs ys zs /\
+  calc_inten_img_sup RO k (map lift_comp (cm0 :: cms)) xs ys zs
+  = image_of (fun q => inten_px RO (sum_field k cm0 cms q)) xs ys zs.
+Proof. intros. split; [apply Lemmas.calc_holo_img_sup_pointwise|apply Lemmas.calc_inten_img_sup_pointwise]. Qed.
+Print Assumptions calc_holo_img_superposed_pointwise.
+
 (* metadata: every key of the result reads as in the detector, except the optics passed in *)
 Theorem attrs_updated : forall (V : Type) (d : attrs V) mi wl pol nsd k,
   lookup k (update_metadata d mi wl pol nsd) =
@@ -152,20 +175,32 @@ Theorem history_permutation_partial : forall (Req Resp : Type) (respond : Req ->
 Proof. intros. apply Lemmas.history_permutation. assumption. Qed.
 Print Assumptions history_permutation_partial.
 
-(* what vm_compute runs on Q is what the theorems are about *)
+(* what vm_compute runs on Q (plain [QO], and [QOr] = fractions reduced after every operation, the instance the
+   harness executes) is what the theorems are about *)
 Theorem holo_agrees_on_Q : forall (alpha : Q) (E : cvec3 Q) (p : vec3 Q),
-  Q2R (holo_px QO alpha E p) = holo_px RO (Q2R alpha) (cvQ2R E) (vQ2R p).
-Proof. exact holo_px_Q_R. Qed.
+  Q2R (holo_px QO alpha E p) = holo_px RO (Q2R alpha) (cvQ2R E) (vQ2R p) /\
+  Q2R (holo_px QOr alpha E p) = holo_px RO (Q2R alpha) (cvQ2R E) (vQ2R p).
+Proof. intros. split; [apply holo_px_Q_R|apply holo_px_Qr_R]. Qed.
 Print Assumptions holo_agrees_on_Q.
 
-Theorem intensity_agrees_on_Q : forall (E : cvec3 Q), Q2R (inten_px QO E) = inten_px RO (cvQ2R E).
-Proof. exact inten_px_Q_R. Qed.
+Theorem intensity_agrees_on_Q : forall (E : cvec3 Q),
+  Q2R (inten_px QO E) = inten_px RO (cvQ2R E) /\ Q2R (inten_px QOr E) = inten_px RO (cvQ2R E).
+Proof. intros. split; [apply inten_px_Q_R|apply inten_px_Qr_R]. Qed.
 Print Assumptions intensity_agrees_on_Q.
 
 Theorem to_vector_agrees_on_Q : forall (p : vec3 Q) (nrm : Q),
-  ~ (nrm == 0)%Q -> vQ2R (to_vector QO p nrm) = to_vector RO (vQ2R p) (Q2R nrm).
-Proof. exact to_vector_Q_R. Qed.
+  ~ (nrm == 0)%Q -> vQ2R (to_vector QO p nrm) = to_vector RO (vQ2R p) (Q2R nrm) /\
+                    vQ2R (to_vector QOr p nrm) = to_vector RO (vQ2R p) (Q2R nrm).
+Proof. intros p nrm H. split; [apply to_vector_Q_R|apply to_vector_Qr_R]; exact H. Qed.
 Print Assumptions to_vector_agrees_on_Q.
+
+(* the pieces of the image-formation pipeline on the executed instance: position transform, phase, sum *)
+Theorem pipeline_agrees_on_Q : forall (k ckz skz : Q) (c q : vec3 Q) (E F : cvec3 Q),
+  vQ2R (position QOr k c q) = position RO (Q2R k) (vQ2R c) (vQ2R q) /\
+  cvQ2R (cv_mul QOr (phase QOr ckz skz) E) = cv_mul RO (phase RO (Q2R ckz) (Q2R skz)) (cvQ2R E) /\
+  cvQ2R (cv_add QOr E F) = cv_add RO (cvQ2R E) (cvQ2R F).
+Proof. intros. split; [apply position_Qr_R|split; [apply phased_Qr_R|apply cv_add_Qr_R]]. Qed.
+Print Assumptions pipeline_agrees_on_Q.
 
 (* non-vacuity: the hypotheses are satisfiable by a concrete non-trivial object (polarisation (3,4),
    nrm 5, a non-zero field; an accepted schema) *)
@@ -174,3 +209,17 @@ Example hyps_satisfiable :
   (holo_px QO 0 ((1#2, 1#3), (2#1, -1#1), (1#1, 1#1))%Q (to_vector QO (3, 4, 0)%Q 5%Q) == 1)%Q /\
   (exists b, prep_schema (V:=Z) [("noise_sd"%string, Some 7%Z)] (Some 1%Z) (Some 2%Z) (Some 3%Z) = inr b).
 Proof. split; [repeat split; lra|]. split; [vm_compute; reflexivity|eexists; vm_compute; reflexivity]. Qed.
+
+(* non-vacuity of the image statements: a 2 x 3 x 1 grid with distinct coordinates; the flattened order is
+   x-major and unflatten puts value (x,y,z) at [ix][iy][iz]; a two-component superposition is not the
+   single-component field *)
+Example grid_nonvacuous :
+  unflatten 2 3 1 (map (fun q : Z * Z * Z => let '(x, y, z) := q in (10 * x + y + z)%Z)
+                       (flat_coords [1; 2] [3; 4; 5] [0]))%Z
+  = [[[13]; [14]; [15]]; [[23]; [24]; [25]]]%Z /\
+  (let cm1 : ptcomp Q := ((fun q => let '(X, Y, Z) := q in ((X, Y), (Z, 0), (1, 0)))%Q, (0, 0, 4)%Q, (0, 1)%Q) in
+   let cm2 : ptcomp Q := ((fun q => let '(X, Y, Z) := q in ((Y, X), (0, Z), (1, 0)))%Q, (1, 0, 3)%Q, (1, 0)%Q) in
+   calc_inten_img_sup QO 2%Q (map lift_comp [cm1; cm2]) [1] [2] [0]%Q <>
+   calc_inten_img_sup QO 2%Q (map lift_comp [cm1]) [1] [2] [0]%Q)%Q /\
+  run_history (fun r : Z => (r * r)%Z) [3; 1; 3]%Z = [9; 1; 9]%Z.
+Proof. split; [vm_compute; reflexivity|]. split; [vm_compute; discriminate|vm_compute; reflexivity]. Qed.
